@@ -64,22 +64,22 @@ PlanProposals(S, o, R, sched) ==
                    /\ \A a, b \in D : a # b => PlannedM(S, o, a) # PlannedM(S, o, b)
                    /\ \A k \in R2 \ D : \E w \in D : PlannedM(S, o, w) = PlannedM(S, o, k)
                                                      /\ EstOf(o, w) <= EstOf(o, k)}}
-(* greedy-from-plan: planned machine unless it is busy, then any free one. *)
-(* (two ready tasks planned on one free machine make the policy raise      *)
-(*  ValueError: GreedyRaises)                                              *)
-GreedyTargets(S, o, R) ==
-    [k \in R |-> IF PlannedM(S, o, k) \in S.cl.occ \cup S.cl.ingest THEN "ALT" ELSE PlannedM(S, o, k)]
-GreedyRaises(S, o, R) ==
-    LET tg == GreedyTargets(S, o, R)
-    IN \/ \E a, b \in R : a # b /\ tg[a] # "ALT" /\ tg[a] = tg[b]
-       \/ \E a \in R : tg[a] # "ALT" /\ tg[a] \notin S.cl.avail
+(* greedy-from-plan: tasks in plan order; a ready task gets its planned     *)
+(* machine unless that machine is busy or already handed out in this round, *)
+(* then any machine that is still free (none left: the task waits)          *)
+RECURSIVE GreedyRun(_, _, _, _, _, _)
+GreedyRun(S, o, R, seq, temp, acc) ==
+    IF seq = <<>> THEN {acc}
+    ELSE LET k == seq[1]
+             rest == SubSeq(seq, 2, Len(seq))
+             m == PlannedM(S, o, k)
+         IN IF k \notin R THEN GreedyRun(S, o, R, rest, temp, acc)
+            ELSE IF m \in S.cl.occ \cup S.cl.ingest \/ m \notin temp
+            THEN IF temp = {} THEN GreedyRun(S, o, R, rest, temp, acc)
+                 ELSE UNION {GreedyRun(S, o, R, rest, temp \ {x}, acc @@ (k :> x)) : x \in temp}
+            ELSE GreedyRun(S, o, R, rest, temp \ {m}, acc @@ (k :> m))
 GreedyProposals(S, o, R, sched) ==
-    LET tg == GreedyTargets(S, o, R)
-        fixed == {k \in R : tg[k] # "ALT"}
-        alt == R \ fixed
-        free == S.cl.avail \ {tg[k] : k \in fixed}
-    IN {Merge(sched, Merge([k \in fixed |-> tg[k]], f)) :
-          f \in UNION {Injection(A, free) : A \in SUBSET alt}}
+    {Merge(sched, f) : f \in GreedyRun(S, o, R, OCfg(o).torder, S.cl.avail, EmptyFn)}
 AdvProposals(S, o, rem, sched) ==
     {Merge(sched, f) : f \in UNION {[D -> Machines \cup {Foreign}] : D \in SUBSET rem}}
 
@@ -100,8 +100,8 @@ Winners(S, prop) ==
        /\ \A k \in W : ~Busy(S, prop[k])
        /\ \A a, b \in W : a # b => prop[a] # prop[b]
        /\ \A k \in DOMAIN prop \ W : Busy(S, prop[k]) \/ \E w \in W : prop[w] = prop[k]}
-MCpu(m) == IF m = Foreign THEN Cpu(CHOOSE x \in Machines : \A y \in Machines : x <= y) ELSE Cpu(m)
-MBw(m) == IF m = Foreign THEN Bw(CHOOSE x \in Machines : \A y \in Machines : x <= y) ELSE Bw(m)
+MCpu(m) == IF m = Foreign THEN Cpu(CHOOSE x \in Machines : TRUE) ELSE Cpu(m)
+MBw(m) == IF m = Foreign THEN Bw(CHOOSE x \in Machines : TRUE) ELSE Bw(m)
 (* Task.update_allocation for every proposed entry whose machine differs   *)
 (* from the recorded one                                                   *)
 UpdateAlloc(S, o, prop) ==
@@ -166,13 +166,11 @@ ATRound(S, pid, pv, prop, ord, delayedByAlg) ==
        ELSE LET S4 == ProcessSchedule(S3, pid, prop, ord)
             IN IF S4.pend # "" THEN Die(S4, pid) ELSE Sleep(S4, pid, STEP)
 
-AlgRaises(S, o) ==
-    \/ SplitRaises(S, o)
-    \/ cfg.alg = "greedy" /\ GreedyRaises(S, o, Ready(S, o, Remaining(S, o)))
+AlgRaises(S, o) == SplitRaises(S, o)
 ATStep(S, pid, pv, prop, ord, d) ==
     IF S.procs[pid].ph = "done" THEN EndProc(S, pid)
     ELSE IF AlgRaises(S, pid[2])
-    THEN Die(Raise(S, IF SplitRaises(S, pid[2]) THEN "RuntimeError" ELSE "ValueError"), pid)
+    THEN Die(Raise(S, "RuntimeError"), pid)
     ELSE ATRound(S, pid, pv, prop, ord, d)
 
 (* all successor states of an allocate_tasks resume *)
